@@ -147,7 +147,8 @@ impl Scenario for C09 {
         }
         let n_seqs = r.range(1, 4) as usize;
         let seqs: Vec<SeqSpec> = (0..n_seqs).map(|_| gen_seq(r, &mut used)).collect();
-        let timeout_ms = *r.pick(&[30_000u64, 1_000, 50]);
+        // u64::MAX stands for Duration::MAX, u64::MAX - 1 for Duration::from_secs(u64::MAX): "never expires"
+        let timeout_ms = *r.pick(&[30_000u64, 1_000, 50, 30_000, 1_000, 50, u64::MAX, u64::MAX - 1]);
         let mut pool: Vec<Delivery> = Vec::new();
         for (si, s) in seqs.iter().enumerate() {
             for id in 1..=u64::from(s.n) {
@@ -172,6 +173,7 @@ impl Scenario for C09 {
         }
         for d in pool.iter_mut() {
             d.wait_ms = match r.below(8) {
+                _ if timeout_ms >= u64::MAX - 1 => *r.pick(&[0u64, 0, 1, 60_000, 3_600_000]),
                 0 => timeout_ms + 1,
                 1 => timeout_ms,
                 2 => timeout_ms / 2,
@@ -222,7 +224,7 @@ impl Scenario for C09 {
             components_stubbed: &["the unordered, duplicating, dropping channel (simulator)", "decode_fragment_header/cont and Connection::receive_message are not in this loop (see C06)"],
             assumptions: &["FragmentAssembler::new() and ::default() both mean the documented 30 s timeout", "a result equal to the ascending-fragment-id concatenation but different from the original message is classified separately (order-ascending-id) from any other wrong result"],
             fault_prefixes: &["fault."],
-            expected_probes: &["probe.c09.completed", "probe.c09.completed_header_last", "probe.c09.completed_header_first", "probe.c09.duplicate_ignored", "probe.c09.out_of_range_ignored", "probe.c09.expired_removed", "probe.c09.incomplete_stays_pending", "probe.c09.interleaved_sequences", "probe.c09.reused_id_completed", "probe.c09.reused_id_continuation_first", "probe.c09.late_duplicate_after_completion", "probe.c09.built_with_new", "probe.c09.built_with_default"],
+            expected_probes: &["probe.c09.completed", "probe.c09.completed_header_last", "probe.c09.completed_header_first", "probe.c09.duplicate_ignored", "probe.c09.out_of_range_ignored", "probe.c09.expired_removed", "probe.c09.incomplete_stays_pending", "probe.c09.interleaved_sequences", "probe.c09.reused_id_completed", "probe.c09.reused_id_continuation_first", "probe.c09.late_duplicate_after_completion", "probe.c09.built_with_new", "probe.c09.built_with_default", "probe.c09.timeout_means_never"],
         }
     }
 }
@@ -365,6 +367,14 @@ async fn channel(w: &Arc<World>, p: &Plan) {
         (30_000, 2) => {
             w.stat("probe.c09.built_with_default");
             FragmentAssembler::default()
+        }
+        (u64::MAX, _) => {
+            w.stat("probe.c09.timeout_means_never");
+            FragmentAssembler::with_timeout(Duration::MAX)
+        }
+        (t, _) if t == u64::MAX - 1 => {
+            w.stat("probe.c09.timeout_means_never");
+            FragmentAssembler::with_timeout(Duration::from_secs(u64::MAX))
         }
         _ => FragmentAssembler::with_timeout(Duration::from_millis(p.timeout_ms)),
     };
